@@ -389,7 +389,20 @@ func (h *hist) opAllocate() {
 		r := h.rng.Intn(2) == 0
 		o.EvenPort = &r
 	}
+	if a, st := h.m.Alloc(c); (a == nil || st == sim.Dead) && h.rng.Intn(5) == 0 {
+		// the transaction id with which another 5-tuple of the same user made its live allocation
+		for _, oc := range h.clients {
+			if oa, ost := h.m.Alloc(oc); oc != c && oc.User == c.User && oa != nil && ost == sim.Live {
+				tid := oa.AllocTID
+				h.m.NextTID = &tid
+				h.rec.FP("allocate/transaction-id-of-another-5-tuple")
+
+				break
+			}
+		}
+	}
 	resp := h.m.Allocate(c, o)
+	h.m.NextTID = nil
 	if resp != nil && resp.Class == wire.ClassSuccess {
 		if r, ok := sim.RelayAddrOf(resp); ok {
 			h.relays = append(h.relays, r)
